@@ -76,8 +76,8 @@ func (g *c09gen) noise(ind string, allowBlock bool) {
 // stmts writes n statements at indentation ind; depth limits nesting.
 func (g *c09gen) stmts(ind string, n, depth int) {
 	for i := 0; i < n; i++ {
-		sel := g.r.Intn(24)
-		if depth <= 0 && (sel >= 5 && sel <= 10 || sel == 12) {
+		sel := g.r.Intn(25)
+		if depth <= 0 && (sel >= 5 && sel <= 10 || sel == 12 || sel == 24) {
 			sel = g.r.Intn(5)
 		}
 		if g.probe {
@@ -129,6 +129,11 @@ func (g *c09gen) stmt(ind string, depth int, sel int) {
 		k := g.id("for-in-header")
 		a(fmt.Sprintf("%sfor i <- :rec(%d)-%d {\n%s\t_ = i\n", ind, k, k-1, ind))
 		g.stmts(ind+"\t", 1, depth-1)
+		a(ind + "}\n")
+	case 24:
+		k := g.id("for-in-filter")
+		a(fmt.Sprintf("%sfor v <- [1, 2] if rec(%d) > 0 {\n%s\t_ = v\n", ind, k, ind))
+		g.stmts(ind+"\t", r.Range(1, 2), depth-1)
 		a(ind + "}\n")
 	case 9:
 		k := g.id("switch-tag")
